@@ -502,7 +502,13 @@ func (e *Engine) step(st *State, fr *Frame, instr ssa.Instruction) bool {
 		obj := &MapObj{Typ: mt}
 		if ks, vs, absent, ok := mapSorts(mt); ok {
 			obj.KeySort, obj.ValSort, obj.Absent = ks, vs, absent
-			obj.Arr = mkT(fmt.Sprintf("((as const (Array %s %s)) %s)", ks.Name, vs.Name, absent.S), canonSort(fmt.Sprintf("(Array %s %s)", ks.Name, vs.Name)))
+			if absent.S == "" {
+				zero := e.zeroOf(mt.Elem()).(VSym).T
+				obj.Arr = constArr(ks, vs, zero)
+				obj.Has = constArr(ks, SBool, TFalse)
+			} else {
+				obj.Arr = mkT(fmt.Sprintf("((as const (Array %s %s)) %s)", ks.Name, vs.Name, absent.S), canonSort(fmt.Sprintf("(Array %s %s)", ks.Name, vs.Name)))
+			}
 		} else {
 			obj.Struct = true
 			obj.Entries = map[string]Value{}
@@ -846,6 +852,19 @@ func (e *Engine) strConcat(a, b Term) Term {
 
 // valueEq decides equality of two executor values as a Bool term.
 func (e *Engine) valueEq(st *State, x, y Value) Term {
+	// an interface holding a handle/pointer compared with the bare handle/pointer (contracts do this)
+	if xi, ok := x.(VIface); ok {
+		switch y.(type) {
+		case VAbs, VPtr, VMap:
+			return e.valueEq(st, xi.V, y)
+		}
+	}
+	if yi, ok := y.(VIface); ok {
+		switch x.(type) {
+		case VAbs, VPtr, VMap:
+			return e.valueEq(st, x, yi.V)
+		}
+	}
 	switch a := x.(type) {
 	case VNil:
 		return e.isNilTerm(st, y)
@@ -906,6 +925,9 @@ func (e *Engine) valueEq(st *State, x, y Value) Term {
 	case VMap:
 		if _, ok := y.(VNil); ok {
 			return e.isNilTerm(st, x)
+		}
+		if b, ok := y.(VMap); ok {
+			return BoolLit(a.Cell == b.Cell)
 		}
 	case VFunc:
 		if _, ok := y.(VNil); ok {
